@@ -287,7 +287,9 @@ def thread_mode_problems(seed, idx):
     inst = c27.gen_instance(rng)
     while inst["algo"] == "maxsum":  # known finding of C27: the synchronous maxsum cannot resume after a migration
         inst = c27.gen_instance(rng)
-    leaving = rng.choice(c27.subsets(inst))
+    # one departing agent: with two, the owner replaces the replicas lost with each of them in two concurrent replications and
+    # may end above k (the code says so itself); that is outside what C25 quantifies over and only counted by C27
+    leaving = rng.choice([s_ for s_ in c27.subsets(inst) if len(s_) == 1])
     r = c27.run_removal(inst, leaving, (seed * 7919 + idx) & 0x7FFFFFFF, second=True)
     S2 = r.get("second") or {}
     W = {"thread_mode_instance": inst, "leaving": leaving}
